@@ -26,6 +26,7 @@ def run(ctx, rep):
         # component call is not an include edge) if each child VM carries BOTH counters on: shared with C05.REC
         from props import c05
         c05.check_rec(crate, rep, cfg)
+        check_resolution_inputs(crate, rep, cfg)
 
 
 def check_run(crate, rep, cfg):
@@ -126,3 +127,39 @@ def check_walk(crate, rep, cfg):
         key = "C11.WALK:%s:cycle-error" % path
         (rep.ok if errs else rep.bad)("C11.WALK", key, b.where(errs[0][0]) if errs else b.where(0),
                                       "a revisit constructs the circular-include/extend error" + ("" if errs else " — VIOLATED"))
+
+
+def check_resolution_inputs(crate, rep, cfg):
+    """C11.RESOLVE — which template an `extends` / `include` name denotes depends on Tera.fallback_prefixes; the graph checks ran with the
+    list in force when the templates were added. So the list is written only while no template is registered (the assignment sits on the
+    true edge of `self.templates.is_empty()`), or the writer goes on to re-run finalize_templates."""
+    from engine import field_accesses, EdgeFacts, Tracer, callee_def
+    n = 0
+    for a in field_accesses(crate, "tera::Tera", "fallback_prefixes"):
+        if a["kind"] not in ("assign",) and not (a["kind"] == "call" and a.get("mut")):
+            continue
+        b = a["body"]
+        root = crate.root_of(b).path
+        if root.endswith("::default") or root.endswith("::clone") or "Default" in root:
+            continue
+        n += 1
+        ef = EdgeFacts(b, crate)
+        tr = Tracer(b)
+        ok = False
+        for sb in sorted(b.reachable):
+            if b.term(sb)["k"] != "switch" or not b.dominates(sb, a["bb"]):
+                continue
+            for tgt, fl in ef.facts_for_switch(sb).items():
+                for f in fl:
+                    if f[0] == "call" and f[1].endswith("::is_empty") and f[3] is True and b.dominates(tgt, a["bb"]) and tgt != sb:
+                        ct = b.term(f[4])
+                        ls = [l for l in tr.operand(ct["args"][0]) if l.kind == "param"]
+                        if ls and all([p for p in l.projs if p.startswith(".")][-1:] == [".templates"] for l in ls):
+                            ok = True
+        if not ok:
+            fin = [bb for bb, t in b.calls() if callee_def(t).endswith("Tera::finalize_templates")]
+            ok = bool(fin) and all(any(b.postdominates(fb, a["bb"]) or fb in b.reach_from(a["bb"]) for fb in fin) for _ in [0]) and \
+                not any(b.term(x)["k"] == "return" for x in b.reach_from(a["bb"], removed_blocks=frozenset(fin)) if x != a["bb"])
+        rep.add("C11.RESOLVE", "C11.RESOLVE:fallback_prefixes-writer:%s" % root, ok, b.where(a["bb"], a["idx"]), "Tera.fallback_prefixes is changed only while no template is registered "
+                "(true edge of templates.is_empty()) or before a re-finalisation" + ("" if ok else " — VIOLATED: accepted templates can lose or change the targets their names resolved to"))
+    rep.floor("C11.RESOLVE", "writers of Tera.fallback_prefixes outside Default/Clone [%s]" % cfg, n, 1)
